@@ -27,7 +27,25 @@ func BuildAnnotation(ctx *parser.AnnotationContext) core_domain.CodeAnnotation {
 	return annotation
 }
 
+// BuildAnnotationForMethod collects the annotations of a member declaration. It is handed the
+// member's first modifier; the annotations may sit in any of the member's modifiers
+// (`@Test @Ignore public void f()`, `public @Test void f()`), so all of them are visited.
 func BuildAnnotationForMethod(context *parser.ModifierContext, method *core_domain.CodeFunction) {
+	var modifiers []parser.IModifierContext
+	switch decl := context.GetParent().(type) {
+	case *parser.ClassBodyDeclarationContext:
+		modifiers = decl.AllModifier()
+	case *parser.InterfaceBodyDeclarationContext:
+		modifiers = decl.AllModifier()
+	default:
+		modifiers = []parser.IModifierContext{context}
+	}
+	for _, modifier := range modifiers {
+		buildAnnotationFromModifier(modifier.(*parser.ModifierContext), method)
+	}
+}
+
+func buildAnnotationFromModifier(context *parser.ModifierContext, method *core_domain.CodeFunction) {
 	if context.ClassOrInterfaceModifier() != nil {
 		if reflect.TypeOf(context.ClassOrInterfaceModifier().GetChild(0)).String() == "*parser.AnnotationContext" {
 			annotationCtx := context.ClassOrInterfaceModifier().GetChild(0).(*parser.AnnotationContext)
